@@ -191,11 +191,25 @@ func checkMaxDiffWatermark(c *core.Ctx, rule string) {
 				if adv != (sent == 1) {
 					bad = fmt.Sprintf("a watermark must be emitted iff the rounded time strictly exceeds the largest seen (advances=%v): emitted %d", adv, sent)
 				}
+				// the state may be plain variables or fields of a state struct: its final value is the variable's,
+				// or what was last stored under that name
+				final := func(name string) absint.Val {
+					if v, ok := out.Env[name]; ok && v != nil && !strings.Contains(name, ".") {
+						return v
+					}
+					var last absint.Val
+					for _, e := range out.Events {
+						if e.Name == "store "+name && len(e.Args) == 1 {
+							last = e.Args[0]
+						}
+					}
+					return last
+				}
 				if adv {
-					if v := out.Env[maxVar]; v == nil || v.Canon() != R {
+					if v := final(maxVar); v == nil || v.Canon() != R {
 						bad = "the largest rounded time seen is not updated when a watermark is emitted: watermarks could repeat"
 					}
-					if v := out.Env[curVar]; v == nil || v.Canon() != "time.Time.Add("+R+",(-"+diffVar+".Duration))" {
+					if v := final(curVar); v == nil || v.Canon() != "time.Time.Add("+R+",(-"+diffVar+".Duration))" {
 						bad = "the current watermark (used to drop late records) is not updated to the emitted one"
 					}
 				}
